@@ -155,10 +155,12 @@ func runC11(c map[string]interface{}) []Event {
 		// the snapshot is needed for `same` whenever the next event may be full
 		var snapJSON string
 		var snap interface{}
+		var rootNode *rtree.VerifNode
 		pbad := 0
 		if full || (k+2 >= fullFrom) {
 			out := safely(func() {
 				root, _, _ := tree.VerifSnapshot(64)
+				rootNode = root
 				snap = snapNode(root, ids, &pbad)
 				b, _ := json.Marshal(snap)
 				snapJSON = string(b)
@@ -187,6 +189,61 @@ func runC11(c map[string]interface{}) []Event {
 				ss = append(ss, map[string]interface{}{"q": []interface{}{q[0], q[1], q[2], q[3]}, "r": idsOf(ids, r)})
 			}
 			sz := tree.Size()
+			// in trees of three or more levels: extra nearest-neighbour queries just outside the faces of the boxes of the
+			// upper levels, where branch pruning by box distances decides the answer
+			if sz > 0 && tree.Depth() >= 3 && rootNode != nil {
+				var upper []*geom.Bounds
+				for _, en := range rootNode.Entries {
+					if en.BB != nil {
+						upper = append(upper, en.BB)
+					}
+					if en.Child != nil && !en.Child.Leaf {
+						for _, e2 := range en.Child.Entries {
+							if e2.BB != nil {
+								upper = append(upper, e2.BB)
+							}
+						}
+					}
+				}
+				seen := map[[2]int]bool{}
+				// after a delete, a coarse grid over the whole extent as well (stale boxes left behind by the condense pass
+				// mislead the pruning only from particular directions)
+				if str(op["op"]) == "del" && len(upper) > 0 {
+					lox, loy, hix, hiy := int(upper[0].Min.X), int(upper[0].Min.Y), int(upper[0].Max.X), int(upper[0].Max.Y)
+					for _, b := range upper {
+						lox, loy = minI(lox, int(b.Min.X)), minI(loy, int(b.Min.Y))
+						hix, hiy = maxI(hix, int(b.Max.X)), maxI(hiy, int(b.Max.Y))
+					}
+					const gridN = 9
+					for gx := 0; gx <= gridN; gx++ {
+						for gy := 0; gy <= gridN; gy++ {
+							p := [2]int{lox - 3 + gx*(hix-lox+6)/gridN, loy - 3 + gy*(hiy-loy+6)/gridN}
+							if seen[p] {
+								continue
+							}
+							seen[p] = true
+							gp := geom.Point{X: float64(p[0]), Y: float64(p[1])}
+							var r geom.Geom
+							out := safely(func() { r = tree.NearestNeighbor(gp) })
+							nns = append(nns, map[string]interface{}{"p": []interface{}{p[0], p[1]}, "r": idOf(ids, r), "out": out})
+						}
+					}
+				}
+				for _, b := range upper {
+					x1, y1, x2, y2 := int(b.Min.X), int(b.Min.Y), int(b.Max.X), int(b.Max.Y)
+					mx, my := (x1+x2)/2, (y1+y2)/2
+					for _, p := range [][2]int{{x1 - 2, my}, {x2 + 2, my}, {mx, y1 - 2}, {mx, y2 + 2}, {x1 - 3, y2 + 1}, {x2 + 1, y1 - 3}} {
+						if seen[p] || len(seen) >= 140 {
+							continue
+						}
+						seen[p] = true
+						gp := geom.Point{X: float64(p[0]), Y: float64(p[1])}
+						var r geom.Geom
+						out := safely(func() { r = tree.NearestNeighbor(gp) })
+						nns = append(nns, map[string]interface{}{"p": []interface{}{p[0], p[1]}, "r": idOf(ids, r), "out": out})
+					}
+				}
+			}
 			for _, p := range pts {
 				gp := geom.Point{X: float64(p[0]), Y: float64(p[1])}
 				if sz > 0 {
@@ -222,16 +279,35 @@ func runC11(c map[string]interface{}) []Event {
 
 // seeded random long histories on bigger pools: fill / churn / drain completely / refill
 func randomC11(rng *rand.Rand, n int) []map[string]interface{} {
-	cfgs := [][2]int{{2, 4}, {2, 5}, {3, 6}, {3, 7}, {2, 9}, {4, 8}}
+	// small fan-outs come up more often: only they reach three levels with pools of this size
+	cfgs := [][2]int{{2, 4}, {2, 5}, {2, 4}, {3, 6}, {2, 5}, {3, 7}, {2, 4}, {2, 9}, {2, 5}, {4, 8}}
 	out := make([]map[string]interface{}, n)
 	for i := range out {
 		cf := cfgs[i%len(cfgs)]
 		np := 8 + rng.Intn(28)
 		span := 20 + rng.Intn(200)
 		boxes := make([]interface{}, np)
+		// every third history uses a degenerate pool, where the split heuristics tie: points on one axis-parallel line,
+		// unit squares on a coarse symmetric grid, or three boxes repeated many times
+		style := 0
+		if i%3 == 2 {
+			style = 1 + (i/3)%3
+		}
 		for j := range boxes {
 			x, y := rng.Intn(span), rng.Intn(span)
 			w, h := rng.Intn(span/4+1), rng.Intn(span/4+1)
+			if style == 1 {
+				boxes[j] = []interface{}{x, 7, x, 7}
+				continue
+			} else if style == 2 {
+				x, y = 4*rng.Intn(4), 4*rng.Intn(4)
+				boxes[j] = []interface{}{x, y, x + 1, y + 1}
+				continue
+			} else if style == 3 {
+				k := rng.Intn(3)
+				boxes[j] = []interface{}{10 * k, 3 * k, 10*k + 2, 3*k + 2}
+				continue
+			}
 			switch rng.Intn(6) {
 			case 0:
 				w, h = 0, 0
